@@ -492,7 +492,11 @@ mutual
             rw [this, hrq] at hkr
             exact encodeFields_required fields vs hv k hkr
         | _ => exact hv.elim
-    | .named _ _, _, _, hm, _, _, _ => by simp only [Models] at hm
+    | .named _ u, an, id, hm, f, scope, hf => by
+      simp only [Models] at hm
+      simp only [depth] at hf
+      obtain ⟨h1, h2⟩ := hm st (DExt.refl st) re f scope hf
+      exact ⟨h1, fun v hv => by simp only [HasType] at hv; simp only [encode]; exact h2 v hv⟩
     | .ref _, _, _, hm, _, _, _ => by simp only [Models] at hm
   theorem ModelsFields.sound {st : Store} {re : String → String → Bool} : ∀ (fields : List (String × String × GoType))
       (props : List (String × NodeId)), ModelsFields true st fields props → ∀ (f : Nat) (scope : List NodeId),
